@@ -1,6 +1,7 @@
 """Linearisation of emitter code into token sequences (expanded view), for sibling-agreement rules.
 
-token = ('lit', text) | ('hole', expr string) | ('call', method, receiver, args string) | ('if', cond string, then tokens, else tokens)
+token = ('prep', receiver)  [marker: an expression is prepared here, nothing is written]
+        | ('lit', text) | ('hole', expr string) | ('call', method, receiver, args string) | ('if', cond string, then tokens, else tokens)
         | ('match', scrutinee, [(pattern string, tokens)]) | ('for', iter string, tokens) | ('closure-call', callee, [tokens per closure arg])
 """
 import sir
@@ -233,6 +234,10 @@ def _lin(n, out):
                     _hole(p[1], out, 0)
             return
         _lin(n["recv"], out)
+        if n["m"] == "to_proc_gen_prepare":
+            # where an expression is prepared (its hoisted temporaries are declared here): a marker, no text
+            out.append(("prep", sir.expr_str(sir.strip_ref(n["recv"]))))
+            return
         if n["m"] in EMIT_METHODS:
             out.append(("call", n["m"], sir.expr_str(sir.strip_ref(n["recv"])), ",".join(sir.expr_str(a) for a in n["args"][1:])))
             return
